@@ -20,6 +20,8 @@ def build(case, **kw):
     from pygradflow.transform import Transformation
     spec = Spec.from_json(case["spec"])
     prob = QuadProblem(spec, fmt=case.get("fmt", "coo"))
+    if case.get("active_tol") is not None:
+        kw = dict(kw, active_tol=case["active_tol"])      # a tolerance of the KKT bookkeeping, not of the projection
     if case["trans"]:
         params = make_params(case["sc"], **kw)
         problem = Transformation(prob, params).trans_problem
@@ -69,7 +71,8 @@ class Implicit(Unit):
             tau = g.rng.choice([None, None, 0.5, 1.0, 2.0])
             act = [g.rng.random() < 0.4 for _ in range(nv)]
             cases.append({"spec": spec.to_json(), "sc": sc, "trans": trans, "xh": xh, "yh": yh, "dt": dt, "rho": rho,
-                          "x": x, "y": y, "tau": tau, "act": act, "fmt": g.rng.choice(["coo", "csr", "csc"])})
+                          "x": x, "y": y, "tau": tau, "act": act, "fmt": g.rng.choice(["coo", "csr", "csc"]),
+                          "active_tol": g.rng.choice([None, None, 0.5, 1.0])})
         return cases
 
     def impl(self, case):
@@ -422,3 +425,52 @@ def cross_solver_oracle(rep, tier, seed):
             rep.failure("cross_solver:" + msg.split(":")[0], msg, {"kind": "cross_solver", "case": case, "what": msg})
     rep.cov.setdefault("oracle", {})["cross_solver"] = dict(stats, note="real step solvers with the real LU solver compared with each other (C14 as stated); search, not proof")
     rep.cov["evaluations"] += stats["compared"] * 12
+
+
+def perform_iteration_oracle(rep, tier, seed):
+    """Solver.perform_iteration(x0, y0) is one trial of the solve: the step it returns is the first trial step of
+    solve(x0, y0), for any lamb_init (no scaling, equality rows only: internal = user coordinates)."""
+    import logging
+    from pygradflow.log import logger
+    from pygradflow.params import Params, StepControlType
+    from pygradflow.solver import Solver
+    from ..gen import Gen
+    from .. import campaign as C
+    g = Gen(seed + 1415)
+    r = g.rng
+    n_cmp = 0
+    lvl = logger.level
+    logger.setLevel(logging.ERROR)
+    try:
+        for k in range(40 if tier == "thorough" else 10):
+            spec = C.convex_qp(g, m=r.randint(0, 2), kinds=["eq", "eq0"])
+            x0 = np.array(g.point_in_box(spec.lb, spec.ub), dtype=float)
+            y0 = np.zeros(spec.m)
+            kw = dict(lamb_init=r.choice([0.25, 0.5, 2.0, 4.0, 16.0]), iteration_limit=1,
+                      step_control_type=StepControlType[r.choice(["Exact", "DistanceRatio", "ResiduumRatio", "Fixed"])])
+            trial = []
+
+            class Sol(Solver):
+                def _compute_step(self, controller, iterate, rho, dt, display, timer):
+                    res = super()._compute_step(controller, iterate, rho, dt, display, timer)
+                    trial.append((np.array(res.iterate.x), np.array(res.iterate.y), float(dt)))
+                    return res
+            try:
+                Sol(QuadProblem(spec), Params(**kw)).solve(x0, y0)
+                first = trial[0]
+                del trial[:]
+                out = Sol(QuadProblem(spec), Params(**kw)).perform_iteration(x0, y0)
+            except Exception:
+                continue
+            n_cmp += 1
+            if not trial:
+                continue
+            if trial[0][2] != first[2] or not np.array_equal(np.asarray(out[0]), first[0]) or not np.array_equal(np.asarray(out[1]), first[1]):
+                case = {"spec": spec.to_json(), "x0": x0.tolist(), "params": {k_: str(v) for k_, v in kw.items()}}
+                msg = ("perform_iteration: with lamb_init = %r the single iteration used dt = %r and returned x = %r; the first trial of "
+                       "solve() uses dt = %r and gives x = %r" % (kw["lamb_init"], trial[0][2], np.asarray(out[0]).tolist(), first[2], first[0].tolist()))
+                rep.failure("perform_iteration:step", msg, {"kind": "perform_iteration", "case": case, "what": msg})
+    finally:
+        logger.setLevel(lvl)
+    rep.cov.setdefault("oracle", {})["perform_iteration"] = {"compared": n_cmp, "note": "search, not proof"}
+    rep.cov["evaluations"] += n_cmp
